@@ -275,17 +275,17 @@ theorem execute_mono (J : Nat → Prop) (s : St) (j : Nat) (due : Int) (hnJ : ¬
   unfold execute
   simp only []
   generalize hs0 : (if (s.job j).execFail.contains (s.job j).execs = true then
-      (((s.emit (Ev.exec j s.now due)).setJob j { s.job j with execs := (s.job j).execs + 1 })).emit (Ev.exc "CallableError")
-    else ((s.emit (Ev.exec j s.now due)).setJob j { s.job j with execs := (s.job j).execs + 1 })) = s0
-  have hb : JobOK ({ s.job j with execs := (s.job j).execs + 1 } : Job) := hI.st j
-  have hA : Inv ((s.emit (Ev.exec j s.now due)).setJob j { s.job j with execs := (s.job j).execs + 1 }) :=
+      (((s.emit (Ev.exec j s.now due)).setJob j { s.job j with execs := (s.job j).execs + 1, lastRun := some s.now })).emit (Ev.exc "CallableError")
+    else ((s.emit (Ev.exec j s.now due)).setJob j { s.job j with execs := (s.job j).execs + 1, lastRun := some s.now })) = s0
+  have hb : JobOK ({ s.job j with execs := (s.job j).execs + 1, lastRun := some s.now } : Job) := hI.st j
+  have hA : Inv ((s.emit (Ev.exec j s.now due)).setJob j { s.job j with execs := (s.job j).execs + 1, lastRun := some s.now }) :=
     (InvEx_setJob _ ((Inv_emit _ hI (by simpa [evOK] using hdue)).toEx j) hb).toInv hj
   have hrun : (s.job j).status = .running := (hI.st.run j).2 ⟨due, hnr⟩
   -- the state in which `update_next` is called: the execution is logged, `j` is exempt
   have h0 : MonoP (fun x => J x ∨ x = j) s0 ∧ s0.queue = s.queue ∧ s0.now = s.now ∧ Inv s0 ∧
       (s0.job j).nextRun = some due := by
     have key : ∀ (s' : St) (l : List Ev), s'.log = l ++ Ev.exec j s.now due :: s.log → (∀ e ∈ l, notExec e) →
-        s'.now = s.now → s'.jobs = (fun i => if i = j then { s.job j with execs := (s.job j).execs + 1 } else s.jobs i) →
+        s'.now = s.now → s'.jobs = (fun i => if i = j then { s.job j with execs := (s.job j).execs + 1, lastRun := some s.now } else s.jobs i) →
         MonoP (fun x => J x ∨ x = j) s' := by
       intro s' l hl hp hn hjobs
       have hdj : duesOf j s'.log = due :: duesOf j s.log := by
@@ -305,7 +305,7 @@ theorem execute_mono (J : Nat → Prop) (s : St) (j : Nat) (due : Int) (hnJ : ¬
           · intro hc; exfalso
             have : (s'.job i).status = .running := by unfold St.job; rw [hjobs]; simp; exact hrun
             rw [this] at hc; cases hc
-          · have : s'.job i = { s.job i with execs := (s.job i).execs + 1 } := by
+          · have : s'.job i = { s.job i with execs := (s.job i).execs + 1, lastRun := some s.now } := by
               show s'.jobs i = _
               rw [hjobs]; simp
             rw [this]; exact (h.w i).cd
